@@ -66,6 +66,13 @@ Fixpoint strip_prefix (p s : string) : option string :=
                    end
   end.
 
+Fixpoint drop (n : nat) (s : string) : string :=
+  match n with O => s | S n' => match s with String _ r => drop n' r | EmptyString => s end end.
+
+(** the first n bytes (all of s if it is shorter) *)
+Fixpoint take_n (n : nat) (s : string) : string :=
+  match n with O => EmptyString | S n' => match s with String c r => String c (take_n n' r) | EmptyString => EmptyString end end.
+
 (** * Observations: what the harness records of one call of the real code *)
 Inductive obs (A : Type) : Type := ObsOk (a : A) | ObsErr | ObsPanic | ObsSkip.
 Arguments ObsOk {A} a. Arguments ObsErr {A}. Arguments ObsPanic {A}. Arguments ObsSkip {A}.
